@@ -2,7 +2,7 @@
 from hypothesis import strategies as st
 
 from vf.evidence import Outcome
-from vf.world import World, settle, advance
+from vf.world import World, Violation, settle, advance
 from vf.lbharness import LBRun
 from vf.gen import sized_list, weighted
 
@@ -95,6 +95,10 @@ def execute(plan, prop=ID):
     run.build(w)
     settle()
     advance(0.02)      # all planned channel opens (<= 5 ms) are done
+    cfg = plan['config']
+    if not cfg['initial'] and not cfg.get('getservers_delay_ms') and not cfg.get('provider_fail') and not run.open_ar.ready():
+      # nothing to connect to: the open is over at once, so that a request is answered (NoMembersError) and not parked
+      raise Violation(prop, 'open-never-completes', 'the balancer was opened on an empty server set 20 ms ago and its open result is still pending: every request would be parked')
     run.run_ops()
     flags = run.flags
     try:
